@@ -1,4 +1,4 @@
-import GdVerif.Lemmas.ValveKind
+import GdVerif.Lemmas.ValveWhole
 import GdVerif.Lemmas.Valve
 import GdVerif.Spec.TheShip
 /-
@@ -97,5 +97,22 @@ theorem convert_expected (cfg : Config) (st : State) (h : TheShip.Spec.wf cfg st
   · have h1 : (2400 == st.info.appid) = false := by
       simp only [beq_eq_false_iff_ne, ne_eq]; exact fun h => happ h.symm
     simp [happ, h1, bind, Res.bind]
+
+/-- the whole query against a conforming The Ship server that answers each request with one datagram -/
+theorem query_single (ext : Ext) (port retries : Nat) (cfg : Config) (st : State) (h : TheShip.Spec.wf cfg st = true)
+    (hl1 : (reply 0x49 (encSourceInfo cfg.upper st.info)).length ≤ PACKET_SIZE)
+    (hl2 : (reply 0x44 (encPlayers st.players)).length ≤ PACKET_SIZE)
+    (hl3 : (reply 0x45 (encRules st.rules)).length ≤ PACKET_SIZE) :
+    (query ext port retries (Net.init [.opened (singleScript cfg.upper st)] [])).1 = TheShip.Spec.expected st := by
+  have hwf := h
+  simp only [TheShip.Spec.wf, Valve.Spec.wf, TheShip.Spec.shipConfig, TheShip.Spec.shipEngine, Engine.new,
+    Bool.and_eq_true, decide_eq_true_eq, List.all_eq_true, beq_self_eq_true] at h
+  obtain ⟨⟨⟨⟨⟨hinfo, hpn⟩, hpl⟩, hrn⟩, hrl⟩, hrd⟩ := h
+  have hq := Valve.query_single ext port ENGINE (by decide) retries cfg.upper st hinfo hpn
+    (fun p hp => by simpa [ENGINE] using hpl p hp) hrn (fun r hr => by simpa using hrl r hr) hrd hl1 hl2 hl3
+  unfold query
+  rw [bind_lift_fst, hq, ← convert_expected cfg st hwf,
+    expected_default (TheShip.Spec.shipConfig cfg) st rfl]
+  rfl
 
 end Gd.TheShip
